@@ -355,6 +355,36 @@ def run(ctx, only_fields=None, rule_prefix="R14"):
                         if any(u.kind != "reset" and not any(pos_dominates(hb, hdom, r.pos(), u.pos()) for r in rs) for u in mine):
                             continue
                         helper_resets.setdefault((a2, fn2), []).append(Use(root_body, cb_, len(root_body.stmts(cb_)), "reset"))
+    # ... and a private constructor of the per-call writer that resets the state it is lent before it builds the writer (itself, or by
+    # calling such a reset helper on it): `EntryWriter::begin(&mut self.state, ..)` { state.reset_for_entry(); EntryWriter { state, .. } }
+    if root_body is not None and u_pos is not None:
+        for b_, cb_, t_ in ctor_calls:
+            if b_ is not root_body:
+                continue
+            for hb in local_callee_bodies(F, CallSite(root_body, cb_, t_)):
+                if hb.crate != CR:
+                    continue
+                hpr = Prov(hb)
+                ps = [i_ for i_ in range(1, hb.arg_count + 1) if hb.locals[i_]["ty"].startswith("&mut ") and any(c_ in hb.locals[i_]["ty"] for c_ in carr if c_ not in roots)]
+                for p_ in ps:
+                    for (a2, fn2), us2 in acc.items():
+                        mine = [u for u in us2 if u.body is hb]
+                        sites = [u.bb for u in mine if u.kind == "reset" and u.place is not None and u.place["l"] == p_]
+                        for c2 in hb.calls():
+                            if not (c2.args and any(x[0] == "arg" and x[1] == p_ and not x[2] for x in hpr.operand(c2.args[0]))):
+                                continue
+                            for h2 in local_callee_bodies(F, c2):
+                                m2 = [u for u in us2 if u.body is h2]
+                                r2 = [u for u in m2 if u.kind == "reset" and u.place is not None and u.place["l"] == 1]
+                                if h2.crate == CR and r2 and h2.must_pass([u.bb for u in r2]) and not any(
+                                        u.kind != "reset" and not any(pos_dominates(h2, h2.dominators(), r.pos(), u.pos()) for r in r2) for u in m2):
+                                    sites.append(c2.bb)
+                        if not sites or not hb.must_pass(sites):
+                            continue
+                        hdom = hb.dominators()
+                        if any(u.kind not in ("reset",) and not any(dominates(hb, sb_, u.bb, hdom) for sb_ in sites) and u.place is not None and u.place["l"] == p_ for u in mine):
+                            continue
+                        helper_resets.setdefault((a2, fn2), []).append(Use(root_body, u_pos[0], max(u_pos[1] - 1, -1), "reset"))
     # ---- R14.2 per scratch field
     for a, fn, us in scratch:
         us = us + helper_resets.get((a, fn), [])
